@@ -79,6 +79,11 @@ func (c *Coordinator) Execute(ctx context.Context, tssProcesses []TssProcess, re
 	if ok && value {
 		c.processLock.Unlock()
 		log.Warn().Str("SessionID", sessionID).Msgf("Process already pending")
+		// the refused processes are never run: release what their constructors acquired
+		// (keygen and resharing processes hold the keyshare lock from construction until Stop)
+		for _, process := range tssProcesses {
+			process.Stop()
+		}
 		return fmt.Errorf("process already pending")
 	}
 	c.pendingProcesses[sessionID] = true
